@@ -28,6 +28,7 @@
  *     remainder == NULL is allowed and must give the same value.
  */
 #include "bee.h"
+#include <pthread.h>
 
 #include <aws/common/clock.h>
 #include <aws/common/error.h>
@@ -712,6 +713,22 @@ static void eval_conv_units(uint64_t index, void *ctx) {
     conv_case(index, "timestamp_convert", true, ticks, units[from], units[to], i);
 }
 static uint64_t total_conv_freq(void) { return (uint64_t)(B64.n + CONV_EXTRA) * nfreqs * nfreqs; }
+/* a conversion is a function of its arguments: not of which other conversions were made before it, on this thread or another.
+ * Every case is therefore evaluated again after "priming" calls with the same source frequency and another target, made
+ * on this thread and on a freshly created one (added after two seeded changes that cached a divisor / a ratio of the last
+ * frequency pair in static and thread-local storage - invisible when pairs are visited in a fixed order) */
+struct prime_job {
+    uint64_t oldf, newf;
+};
+static void *prime_fn(void *p) {
+    const struct prime_job *j = (const struct prime_job *)p;
+    for (int ti = 0; ti < NTABS; ++ti) {
+        uint64_t rem = 0;
+        (void)tabs[ti]->convert_u64(1234567891ull, j->oldf == 7919 ? 7907 : 7919, 11, &rem); /* an unrelated pair first ... */
+        (void)tabs[ti]->convert_u64(1234567891ull, j->oldf, j->newf, &rem);                  /* ... then same source, other target */
+    }
+    return NULL;
+}
 static void eval_conv_freq(uint64_t index, void *ctx) {
     (void)ctx;
     BEE_ITEM(index);
@@ -720,6 +737,17 @@ static void eval_conv_freq(uint64_t index, void *ctx) {
     bool extra;
     uint64_t ticks = conv_ticks(i, freqs[od], freqs[nw], &extra);
     conv_case(index, "timestamp_convert_u64", false, ticks, freqs[od], freqs[nw], i);
+    static const uint64_t primes[3] = {1000000ull, 3ull, 1000ull};
+    for (int pk = 0; pk < 3 && !v_sh->viol_count; ++pk) {
+        if (primes[pk] == freqs[nw]) continue;
+        struct prime_job j = {freqs[od], primes[pk]};
+        prime_fn(&j);
+        conv_case(index, "timestamp_convert_u64", false, ticks, freqs[od], freqs[nw], i);
+        pthread_t th;
+        if (pthread_create(&th, NULL, prime_fn, &j) != 0) _exit(2);
+        pthread_join(th, NULL);
+        conv_case(index, "timestamp_convert_u64", false, ticks, freqs[od], freqs[nw], i);
+    }
 }
 
 /* ------------------------------------------------------------------ main ---------------------------------- */
